@@ -291,3 +291,82 @@ class SqlScenario(Scenario):
         from . import sqlx
 
         sqlx.activate(None)
+
+
+class SimfsScenario(Scenario):
+    """Workers are "processes": each has its own JournalStorage(JournalFileBackend) over ONE
+    simulated journal file (vf/simfs.py); scheduling points are simulated syscalls; state caching."""
+
+    PATH = "/sim/journal.log"
+
+    def __init__(self, config: str, setup: str, programs: list[list[tuple]]) -> None:
+        from . import simfs
+
+        super().__init__(config, setup, programs, [])
+        simfs.install()
+        self.lock_kind = "open" if config.endswith("open") else "sym"
+
+    def _mk(self) -> Any:
+        from optuna.storages import JournalStorage
+        from optuna.storages.journal import JournalFileBackend, JournalFileOpenLock, JournalFileSymlinkLock
+
+        lock = (JournalFileSymlinkLock if self.lock_kind == "sym" else JournalFileOpenLock)(self.PATH)
+        return JournalStorage(JournalFileBackend(self.PATH, lock_obj=lock))
+
+    def _world(self) -> tuple:
+        from . import simfs
+
+        backends.reset_uuid()
+        fs = simfs.SimFS()
+        simfs.activate(fs)
+        s0 = self._mk()
+        ids: dict = {}
+        for name, op in SETUPS[self.setup]:
+            r = do_op(s0, op, ids)
+            ids[name] = r[1] if isinstance(r, tuple) else r
+        workers = [self._mk() for _ in self.programs]
+        return fs, s0, ids, workers
+
+    def execute(self, ch: Chooser) -> dict:
+        from . import simfs
+
+        fs, s0, ids, workers = self._world()
+        try:
+            sched = simfs.ProcSched(ch, fs)
+            hist: list = []
+            sched.ghost_key = lambda: tuple((h[0], h[1], str(h[4])) for h in hist)
+
+            def mk(ti: int) -> Callable[[], None]:
+                def body() -> None:
+                    for k, op in enumerate(self.programs[ti]):
+                        fs.note(ti, ("op", k))
+                        sched.point("op-start")
+                        inv = sched.now()
+                        res = outcome(workers[ti], op, ids)
+                        resp = sched.now()
+                        hist.append((ti, k, inv, resp, res))
+                return body
+
+            threads = sched.run([mk(i) for i in range(len(self.programs))])
+            errors = [t.error for t in threads if t.error and t.error != "deadlock"]
+            fs.sched = None
+            final = dump(self._mk()) if not (sched.deadlock or sched.livelock) else None
+            return {"hist": hist, "final": final, "deadlock": sched.deadlock or sched.livelock, "errors": errors,
+                    "trace": sched.trace, "steps": sched.step}
+        finally:
+            simfs.activate(None)
+
+    def sequential(self, order: tuple) -> tuple:
+        from . import simfs
+
+        if order in self._seq_cache:
+            return self._seq_cache[order]
+        fs, s0, ids, workers = self._world()
+        try:
+            calls = [(ti, self.programs[ti][k]) for ti, k in order]
+            res = SeqRunner(len(self.programs)).run(calls, workers, ids)
+            out = (tuple(res), dump(self._mk()))
+        finally:
+            simfs.activate(None)
+        self._seq_cache[order] = out
+        return out
